@@ -86,8 +86,17 @@ theorem cfgAt_eq_find (config : List Cfg) (hnd : (config.map Cfg.key).Nodup) (k 
   have h := cfgAt_aux k config [] [] hnd
   simp only [List.length_nil, List.nil_append] at h
   unfold cfgAt buildIndex
-  rw [h]
-  cases config.find? (fun c => c.key == k) <;> simp [Index.get]
+  cases hg : (buildIndexFrom 0 config []).get k with
+  | some j =>
+    rw [hg] at h
+    simp only at h ⊢
+    rw [h]
+    cases config.find? (fun c => c.key == k) <;> simp [Index.get]
+  | none =>
+    rw [hg] at h
+    simp only at h ⊢
+    rw [h]
+    cases config.find? (fun c => c.key == k) <;> simp [Index.get]
 
 theorem cfgGet_eq (config : List Cfg) (k : Bytes) :
     cfgGet config k = (config.find? (fun c => c.key == k)).map (fun c => (c.value, c.file)) := rfl
